@@ -28,12 +28,15 @@ OP        ["chunk",{"cache":bool}] ["cache",{}] ["shuffle",{"n":k}|{"seeds":[..]
               (strict take on a shorter source leaves an environment WITHOUT interactions)
           ["noise",{"context":[m,s]|None,"action":..,"reward":..,"seed":s|[s..]}] ["binary",{}] ["params",{..}]
           ["logged",{"learners":[LEARNER..],"seed":float}] ["reservoir",{"n":k,"seeds":[..]}] ["batch",{"n":k}]
+          ["drop",{"keys":["rewards"]}]   (user filter removing fields: plain logged data without a reward function)
           ["fault_read",{"at":j,"msg":m}] ["fault_params",{"msg":m}]
 LEARNER   {"kind":"random","seed":s} {"kind":"epsilon","epsilon":e,"seed":s} {"kind":"ucb","seed":s}
           {"kind":"corral","base":[LEARNER..],"base_refs":[li..],"seed":s}     (default eta; base_refs = *the same objects*
                                                                                  as listed learners li, appended to base)
           {"kind":"history","tag":t,"fmt":"a|ap|pmf|ap_kw|pmf_kw","score":bool,"info":bool,"batch":bool,"finish":bool}
-              (finish: the learner implements the optional finish() hook - it releases its model and refuses later use)
+              (finish: the learner implements the optional finish() hook - it releases its model and refuses later use;
+               "sized":bool - defines __len__ = number of updates, i.e. the object is FALSY while pristine;
+               "uncopyable":bool - owns a threading.Lock: deepcopy / pickle raise TypeError)
               (batch: this instance takes batched calls natively - fmt ap/pmf only; otherwise it raises on a batch and
                SafeLearner falls back to row-by-row calls. Built-in bandit learners never take batches.)
           {"kind":"faulty","inner":LEARNER,"where":"params|predict|learn","at":j,"msg":m,"batches":bool}
@@ -80,7 +83,7 @@ def build_learner(d, listed=None):
     if k == "epsilon": return BanditEpsilonLearner(d.get("epsilon", 0.05), seed=d.get("seed", 1))
     if k == "ucb":     return BanditUCBLearner(seed=d.get("seed", 1))
     if k == "history":
-        cls = comps.FinishingHistoryLearner if d.get("finish") else comps.HistoryLearner
+        cls = comps.UncopyableHistoryLearner if d.get("uncopyable") else comps.HISTORY_CLASSES[(bool(d.get("finish")), bool(d.get("sized")))]
         return cls(d["tag"], d.get("fmt", "ap"), d.get("score", False), d.get("info", False), d.get("batch", False))
     if k == "corral":
         base = [build_learner(b) for b in d.get("base", [])]
@@ -137,6 +140,7 @@ def apply_op(envs, op):
         return envs.shuffle(a.get("seed", 1))
     if name == "take":    return envs.take(a["n"], strict=a.get("strict", False))
     if name == "batch":   return envs.batch(a["n"])
+    if name == "drop":    return envs.filter(comps.DropKeys(a["keys"]))
     if name == "reservoir": return envs.reservoir(a["n"], seeds=list(a.get("seeds", [1])))
     if name == "binary":  return envs.binary()
     if name == "params":  return envs.params(dict(a))
@@ -519,12 +523,14 @@ def learner_desc(draw, tag, logged=False, allow_corral=True, p_history=0.5, kw_o
     if r < p_history * 100:
         if logged:
             fmt = draw(st.sampled_from(["ap", "pmf", "ap", "pmf", "a"]))
-            return {"kind": "history", "tag": tag, "fmt": fmt, "score": True, "info": draw(st.sampled_from([False, False, True, "late", "late"])), "finish": draw(st.integers(0, 9)) < 4}
+            return {"kind": "history", "tag": tag, "fmt": fmt, "score": True, "info": draw(st.sampled_from([False, False, True, "late", "late"])), "finish": draw(st.integers(0, 9)) < 4,
+                    "sized": draw(st.integers(0, 9)) < 3}
         fmts = ["ap", "pmf", "a", "ap_kw", "pmf_kw"] if kw_ok else ["ap", "pmf", "a"]
         if batched: fmts = ["ap", "pmf", "ap", "pmf", "a", "ap_kw"] if kw_ok else ["ap", "pmf", "ap", "pmf", "a"]
         d = {"kind": "history", "tag": tag, "fmt": draw(st.sampled_from(fmts)), "score": draw(st.booleans()), "info": draw(st.sampled_from([False, False, True, "late", "late"]))}
         if batched: d["batch"] = draw(st.booleans())
         d["finish"] = draw(st.integers(0, 9)) < 4
+        d["sized"] = draw(st.integers(0, 9)) < 3
         return d
     kinds = ["random", "epsilon", "ucb", "corral"] if (allow_corral and not logged) else ["random", "epsilon", "ucb"]
     if batched: kinds = ["random", "epsilon", "epsilon"]   # BanditUCB.learn swallows a whole batch without raising (first call), so no row-by-row fallback: not C01/C03's
@@ -536,11 +542,19 @@ def learner_desc(draw, tag, logged=False, allow_corral=True, p_history=0.5, kw_o
     base = [learner_desc(draw, f"{tag}b{j}", allow_corral=False, p_history=0.3, kw_ok=False) for j in range(nb)]
     return {"kind": "corral", "base": base, "seed": seed}
 
-def evaluator_desc(draw, tag, logged=False, kinds=None):
+def evaluator_desc(draw, tag, logged=False, kinds=None, plain=False):
     kinds = kinds or (["seq", "seq", "rejection", "rejection", "fn", "tag"] if logged else ["seq", "seq", "seq", "fn", "tag"])
+    if plain: kinds = ["seq", "seq", "seq", "rejection", "fn", "tag"]
     k = draw(st.sampled_from(kinds))
     seed = draw(st.sampled_from([None, None, 0, 1, 7]))
     if k == "seq":
+        if plain:
+            # some environments lack 'rewards': only off-policy learning / ips evaluation is possible there; the record list
+            # mostly names 'rewards'/'actions', which such an environment cannot supply (the column is simply absent for it)
+            learn, ev = "off", "ips"
+            rec = _subset(draw, RECORDS, always=tuple(draw(st.sampled_from([("rewards",), ("rewards", "actions"), ("actions",), ()]))))
+            if not rec: rec = ["reward"]
+            return {"kind": "seq", "record": rec, "learn": learn, "eval": ev, "seed": seed}
         if logged:
             learn = draw(st.sampled_from(["on", "off", "ips"]))
             ev = draw(st.sampled_from(["on", "ips"]))
@@ -584,7 +598,7 @@ def base_desc(draw, max_n, unit_only=False, min_n=1):
     if len(set(Y)) < 2: Y[0], Y[1] = labels[0], labels[1]      # >= 2 actions: a length-1 pmf over one action is ambiguous by design
     return {"kind": "supervised", "X": X, "Y": Y, "label_type": "c", "form": "source"}
 
-def group_desc(draw, gi, max_n, logged=False, unit_only=False, max_fan=3, small=False, batch=False):
+def group_desc(draw, gi, max_n, logged=False, unit_only=False, max_fan=3, small=False, batch=False, drop=False):
     min_n = MIN_BATCHED_N if batch else 1
     base = base_desc(draw, max_n, unit_only, min_n)
     ops = []
@@ -615,6 +629,7 @@ def group_desc(draw, gi, max_n, logged=False, unit_only=False, max_fan=3, small=
         pols = [dict(p, fmt="ap") if p["kind"] == "history" and p["fmt"] == "a" else p for p in pols]
         fan *= len(pols)
         ops.append(["logged", {"learners": pols, "seed": draw(st.sampled_from([1.23, 1.23, 2.0, 0.5]))}])
+        if drop: ops.append(["drop", {"keys": ["rewards"]}])
         if draw(st.booleans()) and prefix == "none":
             ops.append(["chunk", {"cache": draw(st.booleans())}])
     r = draw(st.integers(0, 9))
@@ -653,16 +668,21 @@ def experiment_desc(draw, max_groups=3, max_n=30, max_triples=12, max_learners=4
                 if l["kind"] == "corral":
                     l["base_refs"] = [draw(st.integers(0, len(plain) - 1))]
     n_grp = draw(st.integers(1, max_groups))
+    # plain logged data: some (not all, when there are >= 2 groups) logged environments lose their 'rewards' field, so ONE
+    # evaluator object meets environments with different fields
+    plain = logged and draw(st.integers(0, 99)) < 40
+    if plain and max_groups >= 2: n_grp = max(n_grp, 2)
     groups, fans = [], []
     for gi in range(n_grp):
         g, fan = group_desc(draw, gi, max_n, logged=logged, unit_only=has_corral, max_fan=3,
-                            batch=batched and (gi == 0 or draw(st.booleans())))
+                            batch=batched and (gi == 0 or draw(st.booleans())),
+                            drop=plain and (gi == 0 or (gi < n_grp - 1 and draw(st.booleans()))))
         groups.append(g); fans.append(fan)
     n_env = sum(fans)
-    n_val = draw(st.integers(0, max_evaluators))
+    n_val = draw(st.integers(1 if plain else 0, max_evaluators))
     evaluators, fns = [], set()
     for i in range(n_val):
-        v = evaluator_desc(draw, f"V{i}", logged=logged, kinds=eval_kinds)
+        v = evaluator_desc(draw, f"V{i}", logged=logged, kinds=eval_kinds, plain=plain)
         if v["kind"] == "fn":
             if v["name"] in fns: continue          # the same function object twice would list the same triple twice in a cross product
             fns.add(v["name"])
@@ -684,6 +704,7 @@ def experiment_desc(draw, max_groups=3, max_n=30, max_triples=12, max_learners=4
     if tuples_shape:
         k = draw(st.integers(2, max_triples))
         vi = st.one_of(st.none(), st.integers(0, max(0, n_val - 1))) if n_val else st.none()
+        if plain: vi = st.integers(0, n_val - 1)      # the default SequentialCB() needs 'rewards' 
         tuples = draw(st.lists(st.tuples(st.integers(0, n_env - 1), st.integers(0, n_lrn - 1), vi), min_size=max(1, k // 2), max_size=k))
         desc["shape"] = "tuples"
         desc["tuples"] = [list(t) for t in tuples]
@@ -715,6 +736,12 @@ def desc_classes(desc):
     elif "chunk" in ops: out.append("chunk")
     if "cache" in ops: out.append("cache-prefix")
     if "logged" in ops: out.append("logged-envs")
+    nd = sum(any(op[0] == "drop" for op in g["ops"]) for g in desc["groups"])
+    if nd: out.append("plain-logged(no rewards):" + ("all" if nd == len(desc["groups"]) else "some"))
+    if nd and any(v["kind"] == "seq" and ("rewards" in v["record"]) for v in desc.get("evaluators", [])): out.append("record-names-missing-field")
+    inner_ = [(l["inner"] if l["kind"] == "faulty" else l) for l in desc["learners"]]
+    if any(l.get("sized") for l in inner_): out.append("lrn-falsy-while-pristine")
+    if any(l.get("uncopyable") for l in inner_): out.append("lrn-uncopyable")
     if any(op[0] == "take" and op[1].get("strict") for g in desc["groups"] for op in g["ops"]):
         def maybe_empty(g):
             t = [op[1] for op in g["ops"] if op[0] == "take" and op[1].get("strict")]
@@ -782,7 +809,7 @@ def has_ref_corral(desc):
 # =============================================================================================== fault plans
 import copy as _copy
 
-FAULT_KINDS = ("lrn_predict", "lrn_learn", "lrn_params", "env_read", "env_params", "val_rows", "lrn_predict_b", "lrn_learn_b")
+FAULT_KINDS = ("lrn_predict", "lrn_learn", "lrn_params", "env_read", "env_params", "val_rows", "lrn_predict_b", "lrn_learn_b", "lrn_uncopyable")
 
 def batch_capable(l):
     return l["kind"] == "history" and l.get("batch", False) and l.get("fmt") in ("ap", "pmf")
@@ -794,6 +821,7 @@ def apply_fault(desc, fault):
       lrn_predict / lrn_learn : the target learner raises at its j-th predict / learn call (per evaluated copy)
       lrn_predict_b / lrn_learn_b : same inside a batch-CAPABLE HistoryLearner (batched calls counted and passed on, j >= 1,
                                 one-shot: an immediate retry would succeed); falls back to the plain kind otherwise
+      lrn_uncopyable          : the target HistoryLearner owns a lock (deepcopy/pickle raise TypeError); other kinds -> lrn_predict
       lrn_params              : building the target learner's params raises
       env_read                : the target flat environment raises when its j-th interaction is requested
       env_params              : building the target flat environment's params raises
@@ -803,6 +831,13 @@ def apply_fault(desc, fault):
     d = _copy.deepcopy(desc)
     kind, msg, at = fault["kind"], fault["msg"], fault.get("at", 0)
     if kind == "val_rows" and not d.get("evaluators"):
+        kind = "lrn_predict"
+    if kind == "lrn_uncopyable":
+        # the target learner cannot be deep-copied (nor pickled): a pristine copy cannot be made when it is listed >= 2 times
+        i = fault["target"] % len(d["learners"])
+        if d["learners"][i]["kind"] == "history":
+            d["learners"][i] = dict(d["learners"][i], uncopyable=True, finish=False, sized=False)
+            return d
         kind = "lrn_predict"
     if kind in ("lrn_predict_b", "lrn_learn_b"):
         # fault inside a batch-capable learner at its j-th call (j >= 1: the first batched call is SafeLearner's probe), one-shot
@@ -844,6 +879,7 @@ def state_of(o, _seen=None):
     if isinstance(o, types.MethodType): return ["method", o.__func__.__qualname__]
     if isinstance(o, (types.FunctionType, types.BuiltinFunctionType, type)): return ["callable", getattr(o, "__qualname__", repr(o))]
     if isinstance(o, types.GeneratorType): return "<generator>"
+    if type(o).__name__ in ("lock", "RLock") and type(o).__module__ == "_thread": return "<lock>"
     if hasattr(o, "__dict__"): return [type(o).__name__, state_of(vars(o), seen)]
     if hasattr(o, "__slots__"): return [type(o).__name__, [[s, state_of(getattr(o, s, None), seen)] for s in o.__slots__]]
     return repr(o)
